@@ -1042,8 +1042,15 @@ class Machine:
         vals = [rng.choice([0.0, 1.0, 0.5, 2.0, 0.25, float('inf')]) if rng.random() < 0.5 else round(rng.random() * 4, 3)
                 for _ in range(numel)]
         t = torch.tensor(vals, dtype=torch.get_default_dtype()).reshape(shape)
-        rep = a[4] % 3
-        if rep == 0:
+        rep = a[4] % 4
+        if rep == 3 and len(shape) >= 2 and 0 not in shape:
+            # a PatternedTensor whose virtual axes are a permutation of its physical axes (a transposed / permuted view)
+            import sys
+            PT = sys.modules['fggs.indices'].PatternedTensor
+            perm = Stream(a[5], 'perm').perm(len(shape))
+            inv = [perm.index(i) for i in range(len(shape))]
+            arg = PT(t.permute(perm).contiguous()).permute(inv)
+        elif rep == 0 or rep == 3:
             arg = t.tolist()
             if 0 in shape:
                 arg = t   # nested lists cannot express a shape with an empty leading dimension unambiguously
